@@ -1,8 +1,10 @@
+import NomtModel.Store.WalkerSimTop
 import NomtModel.Store.WalkerSimRun
+import NomtModel.Store.WalkerGSimRun
 /-!
 # The walk without parent page on the mirror: no panic, the specified root, every output page right
 -/
-namespace Nomt.Walker
+namespace Nomt.Walker.G
 open Nomt Nomt.TriePos
 open Nomt.Wal (PageDiff)
 
@@ -14,42 +16,26 @@ theorem runInv_run (hs : H.Sound) {D : Path → Prop} {pp : Option PageId} {root
     ∀ (todo done : List (Step VH)) (w : Walker Node) (a : TW Node), ScriptOK S S' (done ++ todo) →
       PSOK ps (done ++ todo) → PathsIn D (done ++ todo) → InScope pp (done ++ todo) →
       RunInv H ps D pp root S S' done todo w a →
-      ∃ w', w.runM H ps todo = .ok w' ∧
-        RunInv H ps D pp root S S' (done ++ todo) [] w' (a.run H (cfgOf H ps pp) todo) := by
+      (∃ w', w.runM H ps todo = .ok w' ∧
+        RunInv H ps D pp root S S' (done ++ todo) [] w' (a.run H (cfgOf H ps pp) todo)) ∨
+      w.runM H ps todo = .panic GUARD := by
   intro todo
   induction todo with
-  | nil => intro done w a _ _ _ _ h; exact ⟨w, rfl, by simpa [TW.run] using h⟩
+  | nil => intro done w a _ _ _ _ h; exact Or.inl ⟨w, rfl, by simpa [TW.run] using h⟩
   | cons s todo ih =>
     intro done w a hso hps hDp hscp h
-    obtain ⟨w1, hw1, h1⟩ := runInv_step H ps hs hS hS' hso hps hrep hDp hD0 hscp h
+    rcases runInv_step H ps hs hS hS' hso hps hrep hDp hD0 hscp h with ⟨w1, hw1, h1⟩ | hp
+    case inr =>
+      right
+      simp only [Walker.runM]; rw [hp]
     have e : (done ++ [s]) ++ todo = done ++ s :: todo := by simp
-    obtain ⟨w2, hw2, h2⟩ := ih (done ++ [s]) w1 _ (by rw [e]; exact hso) (by rw [e]; exact hps) (by rw [e]; exact hDp)
-      (by rw [e]; exact hscp) h1
-    refine ⟨w2, ?_, ?_⟩
-    · simp only [Walker.runM]; rw [hw1]; exact hw2
-    · simpa [TW.run] using h2
-
-/-- the slot of `q` is materialised: in a page of the page set, or strictly below a replaced terminal (where the walker
-creates the pages itself) -/
-def MatR (steps : List (Step VH)) (q : Path) : Prop :=
-  Mat ps q ∨ ∃ s ∈ steps, s.2.isSome = true ∧ s.1 <+: q ∧ q ≠ s.1
-
-/-- the page set represents `S` on its materialised slots -/
-def Represents (root : Node) (S : List (Key × VH)) : Prop := Rep0 H (Mat ps) S (flatStore H ps root)
-
-theorem rep_matR {root : Node} {S S' : List (Key × VH)} (hS : KeysOK S) {steps : List (Step VH)}
-    (hso : ScriptOK S S' steps) (hrep : Represents H ps root S) : Rep0 H (MatR ps steps) S (flatStore H ps root) := by
-  intro q hq hD hm
-  rcases hD with h | ⟨s, hs, _, hpre, hne⟩
-  · exact hrep q hq h hm
-  · exact absurd hm (not_mean_below hS s.1 q (hso.term s hs).1 hpre hne hq)
-
-/-- the initial walker (`PageWalker::new(root, parent_page)`, with the elision switch) -/
-def Walker.startP (root : Node) (pp : Option PageId) (inhibit : Bool) : Walker Node :=
-  { Walker.new root pp with inhibitElision := inhibit }
-
-/-- the initial walker without parent page -/
-def Walker.start (root : Node) (inhibit : Bool) : Walker Node := Walker.startP root none inhibit
+    rcases ih (done ++ [s]) w1 _ (by rw [e]; exact hso) (by rw [e]; exact hps) (by rw [e]; exact hDp)
+      (by rw [e]; exact hscp) h1 with ⟨w2, hw2, h2⟩ | hp2
+    · refine Or.inl ⟨w2, ?_, ?_⟩
+      · simp only [Walker.runM]; rw [hw1]; exact hw2
+      · simpa [TW.run] using h2
+    · right
+      simp only [Walker.runM]; rw [hw1]; exact hp2
 
 theorem runInv_start (D : Path → Prop) (pp : Option PageId) (root : Node) (S S' : List (Key × VH))
     (steps : List (Step VH)) (inhibit : Bool) :
@@ -76,13 +62,18 @@ theorem conclude_spec (hs : H.Sound) {D : Path → Prop} {root : Node} {S S' : L
     (hS' : KeysOK S') {all : List (Step VH)} (hso : ScriptOK S S' all)
     (hrep : Rep0 H D S (flatStore H ps root)) (hD0 : D []) {w : Walker Node} {a : TW Node}
     (h : RunInv H ps D none root S S' all [] w a) :
-    ∃ pages, w.conclude H = .ok (.root (specNode H S' []) pages) ∧
+    (∃ pages, w.conclude H = .ok (.root (specNode H S' []) pages) ∧
       ∀ o ∈ pages, ∃ P pg d b, o = .updated P pg d b ∧ pg.nodes.length = 126 ∧
         (∀ q, q ≠ [] → q.length ≤ 256 → specPage q = P → D q → Mean S' q →
           pg.nodes.getD (specIndex q) H.term = specNode H S' q) ∧
-        ∃ base, BaseOf ps P base ∧ DiffNames H pg.nodes base d := by
-  obtain ⟨w1, hw1, hs1, hsame1⟩ := sim_compactUp H ps h.sim none (by intro t ht; cases ht) []
-    (fun hr => absurd hr (by rw [h.norec]; simp))
+        ∃ base, BaseOf ps P base ∧ DiffNames H pg.nodes base d) ∨
+    w.conclude H = .panic GUARD := by
+  rcases sim_compactUp H ps h.sim none (by intro t ht; cases ht) []
+    (fun hr => absurd hr (by rw [h.norec]; simp)) with ⟨w1, hw1, hs1, hsame1⟩ | ⟨_, hp⟩
+  case inr =>
+    right
+    unfold Walker.conclude
+    rw [if_neg (by rw [h.norec]; simp), hp]
   have hnr1 : w1.reconstruction = false := hsame1.2.2.2.2.trans h.norec
   rw [h.par] at hs1
   simp only [Option.map_none] at hs1
@@ -118,7 +109,7 @@ theorem conclude_spec (hs : H.Sound) {D : Path → Prop} {root : Node} {S S' : L
       have := (c3 rfl).1
       rw [hp] at this
       exact ⟨this, c4⟩
-  refine ⟨w1.outputPages, ?_, ?_⟩
+  refine Or.inl ⟨w1.outputPages, ?_, ?_⟩
   · have : w1.root = specNode H S' [] := by
       rw [hs1.root]; exact htw.1
     rw [this]
@@ -134,14 +125,19 @@ theorem conclude_children_spec (hs : H.Sound) {D : Path → Prop} {P0 : PageId} 
     (hS : KeysOK S) (hS' : KeysOK S') {all : List (Step VH)} (hso : ScriptOK S S' all)
     (hrep : Rep0 H D S (flatStore H ps root)) {w : Walker Node} {a : TW Node}
     (h : RunInv H ps D (some P0) root S S' all [] w a) :
-    ∃ roots pages, w.conclude H = .ok (.childPageRoots roots pages) ∧
+    (∃ roots pages, w.conclude H = .ok (.childPageRoots roots pages) ∧
       (∀ e ∈ roots, e.2 = specNode H S' e.1.path ∧ e.1.path.length = 6 * (P0.length + 1)) ∧
       ∀ o ∈ pages, ∃ P pg d b, o = .updated P pg d b ∧ pg.nodes.length = 126 ∧
         (∀ q, q ≠ [] → q.length ≤ 256 → specPage q = P → D q → Mean S' q →
           pg.nodes.getD (specIndex q) H.term = specNode H S' q) ∧
-        ∃ base, BaseOf ps P base ∧ DiffNames H pg.nodes base d := by
-  obtain ⟨w1, hw1, hs1, hsame1⟩ := sim_compactUp H ps h.sim none (by intro t ht; cases ht) []
-    (fun hr => absurd hr (by rw [h.norec]; simp))
+        ∃ base, BaseOf ps P base ∧ DiffNames H pg.nodes base d) ∨
+    w.conclude H = .panic GUARD := by
+  rcases sim_compactUp H ps h.sim none (by intro t ht; cases ht) []
+    (fun hr => absurd hr (by rw [h.norec]; simp)) with ⟨w1, hw1, hs1, hsame1⟩ | ⟨_, hp⟩
+  case inr =>
+    right
+    unfold Walker.conclude
+    rw [if_neg (by rw [h.norec]; simp), hp]
   have hnr1 : w1.reconstruction = false := hsame1.2.2.2.2.trans h.norec
   rw [h.par] at hs1
   simp only [Option.map_none] at hs1
@@ -169,7 +165,7 @@ theorem conclude_children_spec (hs : H.Sound) {D : Path → Prop} {P0 : PageId} 
       · intro e he; rw [hidle.log] at he; cases he
     · obtain ⟨_, _, _, c4, c5, _⟩ := tw_conclude_spec H D hs hS' hso hrep (cfgOf H ps (some P0)) a hinv _ rfl
       exact ⟨c5, c4⟩
-  refine ⟨w1.childPageRoots, w1.outputPages, rfl, ?_, ?_⟩
+  refine Or.inl ⟨w1.childPageRoots, w1.outputPages, rfl, ?_, ?_⟩
   · intro e he
     have hmem : (e.1.path, e.2) ∈ (a.conclude H (cfgOf H ps (some P0))).cpr := by
       have hc := hs1.cpr
@@ -184,4 +180,4 @@ theorem conclude_children_spec (hs : H.Sound) {D : Path → Prop} {P0 : PageId} 
     rw [hm q hq hql hqp]
     exact htw.2 (P, st) hmem q hq hqp hql hD hmean
 
-end Nomt.Walker
+end Nomt.Walker.G
